@@ -1,8 +1,8 @@
 CONSTANTS
-  Alphabet <- LineAlphabet
-  MaxLen = 4
+  AlphaOf <- FullAlpha
+  MaxLenOf <- Len5
   DelimSet <- AllDelims
 INIT Init
 NEXT Next
-INVARIANTS InvPartition InvSelection InvNth InvRender
+INVARIANTS InvPartition
 CHECK_DEADLOCK FALSE
